@@ -137,6 +137,27 @@ theorem pyEq_dict_of_rel (l r : List (String × PVal F)) (h : RelFields (fun a b
   have h2 := pyEqDict_of_lookup r l (dictGet_of_rel l r h hnd)
   simp [pyEq, h1, h2]
 
+theorem relFields_mono {R S : PVal F → PVal F → Prop} (hrs : ∀ a b, R a b → S a b) :
+    ∀ (l r : List (String × PVal F)), RelFields R l r → RelFields S l r
+  | [], [], _ => by simp [RelFields]
+  | (k, a) :: l, (k', b) :: r, h => by
+    simp only [RelFields] at h ⊢
+    exact ⟨h.1, hrs a b h.2.1, relFields_mono hrs l r h.2.2⟩
+  | [], _ :: _, h => by simp [RelFields] at h
+  | _ :: _, [], h => by simp [RelFields] at h
+
+/-- the relation between what comes back and what was sent: Python-equal, and the very same value when that was canonical -/
+def Back (a b : PVal F) : Prop := pyEq a b = true ∧ (Canon b → a = b)
+
+theorem relFields_exact : ∀ (l r : List (String × PVal F)), RelFields Back l r → CanonFields r → l = r
+  | [], [], _, _ => rfl
+  | (k, a) :: l, (k', b) :: r, h, hc => by
+    simp only [RelFields] at h
+    simp only [CanonFields] at hc
+    rw [h.1, h.2.1.2 hc.1, relFields_exact l r h.2.2 hc.2]
+  | [], _ :: _, h, _ => by simp [RelFields] at h
+  | _ :: _, [], h, _ => by simp [RelFields] at h
+
 /-! ### leaves -/
 
 theorem find_member {ms : List (String × Int)} {n : String} {k : Int} (hm : (n, k) ∈ ms)
@@ -252,14 +273,14 @@ theorem string_rt {minc maxc : Nat} {utf8 : Bool} {s : String}
 
 theorem mapExport_rt {f : PVal F → Except Err (JVal F)} {g : JVal F → Res F} {P : JVal F → Prop} :
     ∀ (vs : List (PVal F)),
-    (∀ v ∈ vs, ∃ j v', f v = .ok j ∧ P j ∧ StrictJ j ∧ g j = .ok v' ∧ pyEq v' v = true) →
+    (∀ v ∈ vs, ∃ j v', f v = .ok j ∧ P j ∧ StrictJ j ∧ g j = .ok v' ∧ pyEq v' v = true ∧ (Canon v → v' = v)) →
     ∃ js vs', mapExport f vs = .ok js ∧ (∀ j ∈ js, P j) ∧ StrictList js ∧ js.length = vs.length ∧
-      mapImport g js = .ok vs' ∧ pyEqList vs' vs = true
-  | [], _ => ⟨[], [], rfl, by simp, by simp [StrictList], rfl, rfl, by simp [pyEqList]⟩
+      mapImport g js = .ok vs' ∧ pyEqList vs' vs = true ∧ (CanonList vs → vs' = vs)
+  | [], _ => ⟨[], [], rfl, by simp, by simp [StrictList], rfl, rfl, by simp [pyEqList], fun _ => rfl⟩
   | v :: vs, h => by
-    obtain ⟨j, v', hf, hp, hs, hg, he⟩ := h v (List.mem_cons_self ..)
-    obtain ⟨js, vs', hfs, hps, hss, hl, hgs, hes⟩ := mapExport_rt vs (fun x hx => h x (List.mem_cons_of_mem _ hx))
-    refine ⟨j :: js, v' :: vs', ?_, ?_, ?_, ?_, ?_, ?_⟩
+    obtain ⟨j, v', hf, hp, hs, hg, he, hx⟩ := h v (List.mem_cons_self ..)
+    obtain ⟨js, vs', hfs, hps, hss, hl, hgs, hes, hxs⟩ := mapExport_rt vs (fun x hx => h x (List.mem_cons_of_mem _ hx))
+    refine ⟨j :: js, v' :: vs', ?_, ?_, ?_, ?_, ?_, ?_, ?_⟩
     · simp [mapExport, hf, hfs]
     · intro x hx
       rcases List.mem_cons.mp hx with rfl | hx
@@ -269,6 +290,9 @@ theorem mapExport_rt {f : PVal F → Except Err (JVal F)} {g : JVal F → Res F}
     · simp [hl]
     · simp [mapImport, hg, hgs]
     · simp [pyEqList, he, hes]
+    · intro hc
+      simp only [CanonList] at hc
+      rw [hx hc.1, hxs hc.2]
 
 theorem givenKeys_of_noNone : ∀ (items : List (String × PVal F)), (∀ kv ∈ items, kv.2 ≠ .none) →
     givenKeys items = items.map (·.1)
@@ -305,15 +329,15 @@ theorem ofJFields_noNone : ∀ (fs : List (String × JVal F)), (∀ kv ∈ fs, k
     · exact ofJFields_noNone fs (fun x hx => h x (List.mem_cons_of_mem _ hx)) kv hmem
 
 theorem mapFieldsExport_rt {f : String → PVal F → Option (Except Err (JVal F))} {g : String → JVal F → Option (Res F)}
-    {P : String → JVal F → Prop} :
+    {P : String → JVal F → Prop} {R : PVal F → PVal F → Prop} :
     ∀ (fields acc acc' : List (String × PVal F)),
     (∀ kv ∈ fields, ∃ j v', f kv.1 kv.2 = some (.ok j) ∧ P kv.1 j ∧ StrictJ j ∧ j ≠ .null ∧
-        g kv.1 j = some (.ok v') ∧ pyEq v' kv.2 = true) →
+        g kv.1 j = some (.ok v') ∧ R v' kv.2) →
     (fields.map (·.1)).Nodup → (∀ k ∈ fields.map (·.1), k ∉ acc.map (·.1)) →
-    RelFields (fun a b => pyEq a b = true) acc acc' →
+    RelFields R acc acc' →
     ∃ jfs fs', mapFieldsExport f fields = .ok jfs ∧ (∀ kv ∈ jfs, P kv.1 kv.2) ∧ StrictFields jfs ∧
       (∀ kv ∈ jfs, kv.2 ≠ .null) ∧ jfs.map (·.1) = fields.map (·.1) ∧
-      foldImport g jfs acc = .ok fs' ∧ RelFields (fun a b => pyEq a b = true) fs' (acc' ++ fields)
+      foldImport g jfs acc = .ok fs' ∧ RelFields R fs' (acc' ++ fields)
   | [], acc, acc', _, _, _, hrel => by
     refine ⟨[], acc, rfl, by simp, by simp [StrictFields], by simp, rfl, rfl, by simpa using hrel⟩
   | (k, v) :: rest, acc, acc', h, hnd, hdis, hrel => by
